@@ -487,6 +487,13 @@ pub fn run(tier: Tier) -> i32 {
             r##"<svg><rect id="z" wh="3"/><if test="{{#z~w}}"><rect wh="{{randint(1,1000)}}"/></if><var r="{{randint(1,1000)}}"/><text text="[$r]"/></svg>"##),
         ("retry-stale-registration/second-run-of-group", r##"<svg><g><if test="1"><var v="3"/><rect xy="#z|h" wh="1"/></if><text text="[$v]"/><rect xy="#out|h" wh="1"/><rect id="z" wh="1"/></g><rect id="out" wh="1"/></svg>"##,
             r##"<svg><rect id="out" wh="1"/><g><if test="1"><var v="3"/><rect xy="#z|h" wh="1"/></if><text text="[$v]"/><rect xy="#out|h" wh="1"/><rect id="z" wh="1"/></g></svg>"##),
+        // fifth review round: what a waiting <var> assigns is in force for the readers evaluated after it is done
+        ("retried-assignment-read-after-container/if", r##"<svg><if test="1"><var a="{{#z~w}}"/><rect id="z" wh="3"/></if><text text="[$a]"/></svg>"##,
+            r##"<svg><if test="1"><rect id="z" wh="3"/><var a="{{#z~w}}"/></if><text text="[$a]"/></svg>"##),
+        ("retried-assignment-read-after-container/loop", r##"<svg><var a="0"/><loop count="2" loop-var="i"><var a="{{$a + #z$i~w}}"/><rect id="z$i" wh="3"/></loop><text text="[$a]"/></svg>"##,
+            r##"<svg><var a="0"/><loop count="2" loop-var="i"><rect id="z$i" wh="3"/><var a="{{$a + #z$i~w}}"/></loop><text text="[$a]"/></svg>"##),
+        ("retried-assignment-read-after-container/later-assignment-wins", r##"<svg><var a="{{#z~w}}"/><var a="9"/><rect id="z" wh="3"/><text text="[$a]"/></svg>"##,
+            r##"<svg><rect id="z" wh="3"/><var a="{{#z~w}}"/><var a="9"/><text text="[$a]"/></svg>"##),
         ("retry-consumes-random-draws-toplevel", r##"<svg><rect xy="#z|h" wh="{{randint(1,9)}}"/><rect id="z" wh="3"/><var r="{{randint(1,1000)}}"/><text text="[$r]"/></svg>"##,
             r##"<svg><rect id="z" wh="3"/><rect xy="#z|h" wh="{{randint(1,9)}}"/><var r="{{randint(1,1000)}}"/><text text="[$r]"/></svg>"##),
     ];
